@@ -16,7 +16,9 @@
 (*             alg     : "sha256" | "sha1" - digest algorithm the signer info is made with (message     *)
 (*                       digest and RSA signature),                                                   *)
 (*             unauth  : "none" | identity of a content: unauthenticatedAttributes carrying a           *)
-(*                       messageDigest of that content (anybody can add them; the rule ignores them)]]  *)
+(*                       messageDigest of that content, or "nested_" + identity: carrying a complete,  *)
+(*                       genuine SignedData by the named signer over that content (Microsoft's nested   *)
+(*                       signature attribute); anybody can add them; the rule ignores them]]            *)
 (* A verifying certificate is [sid, key].  "A", "At", "Ae", "Ac" share issuer+serial and differ in the key *)
 (* (another RSA key, a key of another kind: nothing was ever signed with those).                    *)
 EXTENDS Integers, Sequences, FiniteSets, TLC
